@@ -23,6 +23,7 @@ CFG = {
                 "rename_cells": 1.5, "add_bases": 2.5, "remove_bases": 1.2, "set_ref": 2.5, "del_ref": 1.0,
                 "set_mref": 0.8, "del_mref": 0.4, "eval": 0.8, "bad": 2.0, "rename_space": 0.0},
     "cross_names": 0.2,
+    "enum_always": ("new_cells", "new_space", "set_ref", "rename_cells", "add_bases"),   # every edit that can bring two members of one name together
 }
 RULE = ("random histories (12-26 ops) of member creation/deletion/renaming and base changes over a small shared "
         "name alphabet (cells names, reference names and child-space names overlap on purpose through the malformed "
